@@ -314,10 +314,39 @@ func (tt *TermTable) Eq(a, b *Term) *Term {
 			return tt.Not(a)
 		}
 	}
+	if a.sort.K == SBV {
+		// a comparison of a constant with an ite tree whose leaves are constants (big.Int.Cmp / Sign results) is
+		// the corresponding combination of the tree's conditions: no bit-vector term is left
+		if b.IsConst() && constLeafIte(a, 4) {
+			return tt.mapIte(a, func(l *Term) *Term { return tt.Eq(l, b) })
+		}
+		if a.IsConst() && constLeafIte(b, 4) {
+			return tt.mapIte(b, func(l *Term) *Term { return tt.Eq(a, l) })
+		}
+	}
 	if a.id > b.id {
 		a, b = b, a
 	}
 	return tt.intern(&Term{op: OEq, sort: BoolSort, args: []*Term{a, b}})
+}
+
+func constLeafIte(t *Term, depth int) bool {
+	if t.op != OIte || depth == 0 {
+		return false
+	}
+	for _, br := range t.args[1:] {
+		if !br.IsConst() && !constLeafIte(br, depth-1) {
+			return false
+		}
+	}
+	return true
+}
+
+func (tt *TermTable) mapIte(t *Term, f func(*Term) *Term) *Term {
+	if t.op != OIte {
+		return f(t)
+	}
+	return tt.Ite(t.args[0], tt.mapIte(t.args[1], f), tt.mapIte(t.args[2], f))
 }
 
 func (tt *TermTable) Ite(c, a, b *Term) *Term {
@@ -339,6 +368,18 @@ func (tt *TermTable) Ite(c, a, b *Term) *Term {
 		}
 		if a.IsFalse() && b.IsTrue() {
 			return tt.Not(c)
+		}
+		if a.IsTrue() {
+			return tt.Or(c, b)
+		}
+		if a.IsFalse() {
+			return tt.And(tt.Not(c), b)
+		}
+		if b.IsTrue() {
+			return tt.Or(tt.Not(c), a)
+		}
+		if b.IsFalse() {
+			return tt.And(c, a)
 		}
 	}
 	return tt.intern(&Term{op: OIte, sort: a.sort, args: []*Term{c, a, b}})
@@ -675,6 +716,12 @@ func (tt *TermTable) bvCmp(op Op, a, b *Term) *Term {
 	}
 	if a == b {
 		return tt.Bool(op == OBvUle || op == OBvSle)
+	}
+	if b.IsConst() && constLeafIte(a, 4) {
+		return tt.mapIte(a, func(l *Term) *Term { return tt.bvCmp(op, l, b) })
+	}
+	if a.IsConst() && constLeafIte(b, 4) {
+		return tt.mapIte(b, func(l *Term) *Term { return tt.bvCmp(op, a, l) })
 	}
 	return tt.intern(&Term{op: op, sort: BoolSort, args: []*Term{a, b}})
 }
